@@ -1423,6 +1423,11 @@ def check_program(case, H):
         H.unload(m)
         if not isinstance(exp, H.Raised):
             break
+        if isinstance(exp, H.ModuleRaised):
+            # CPython already raises while importing the module (natively created closures): nothing is specified
+            out.status = "unspecified"
+            out.labels.append(f"module_level_raised:{exp.name}")
+            return out
 
         def bad_native(k):
             v, _, mm = H.run_cpython(build(case, stmts[:k + 1], H))
